@@ -1,16 +1,43 @@
 """C30 Liveness and readiness follow subsystem reports within one tick."""
 
+import os as _os
+import sys as _sys
+
+_THOROUGH = _os.environ.get("VERIF_TIER") == "thorough"
+for _i, _a in enumerate(_sys.argv):
+    if _a == "--tier" and _i + 1 < len(_sys.argv):
+        _THOROUGH = _sys.argv[_i + 1] == "thorough"
+    elif _a.startswith("--tier="):
+        _THOROUGH = _a == "--tier=thorough"
+
+
+def _walk(name, suffix, budget, quick=False, quick_suffix=None):
+    """One exhaustive TLC run + transition tour. Alternative 'exact' = the answers of the code model;
+    'loose' = any answers the C30 statement allows (tried only when the code departs from 'exact')."""
+    cfg = lambda alt: {"quick": f"MC_Health_{alt}{suffix if quick_suffix is None else quick_suffix}.cfg", "thorough": f"MC_Health_{alt}{suffix}.cfg"}
+    return dict(kind="walk", name=name, module="Health", pkg="internal/health", test="TestVerifC30Health",
+                harness=["internal/health/c30_health_test.go"], _quick=quick,
+                alternatives=[dict(name="exact", cfg=cfg("exact")), dict(name="loose", cfg=cfg("loose"))],
+                budget=budget)
+
+
 PROP = dict(
     level="model_checking",
     technique="TLA+ spec Health.tla (code state of internal/health.Health + ghost report history) model-checked by TLC; every generated transition replayed into a real started Health (real ticker goroutine, clockwork fake clock, deterministic tick barrier) and IsAlive/IsReady compared (spec->code transition tour)",
     design_ref="DESIGN.md §5 C30",
-    level_text="TLC explores every order of Register/Unregister/Ready(true|false)/clock advance/tick processing for 2 subsystems on a 250 ms (quick) or 100 ms (thorough) time grid with timeouts that are not multiples of the 500 ms tick (750/1250 ms; 600/1200 ms; the pure TLC stage also 300/1000/1700 ms), including calls racing with the tick at a tick boundary, and checks on the model that the answers the code computes satisfy C30: alive whenever every registered subsystem was heard from less than timeout-tick ago, dead whenever one that reported has been silent for more than timeout+tick and until it reports again, ready only if something is registered, every registered subsystem reported ready and nothing is unregistered (re-registration counts as registered). Each generated transition is then executed on the real Health and IsAlive()/IsReady() must equal the model's answers.",
+    level_text="TLC explores every order of Register/Unregister/Ready(true|false)/clock advance/tick processing, including calls racing with the tick at a tick boundary, for 2 subsystems with timeouts that are not multiples of the 500 ms tick: quick on a 250 ms grid (a 750|1250 ms, b 1250 ms; thorough both 750|1250 ms; re-registration may change the timeout); thorough additionally on a 100 ms grid (600 ms + 1200 ms; 300 ms + 1700 ms) and, model only, 300|1000|1700 ms for 2 and 600/600/1200 ms for 3 subsystems. It checks on the model that the answers the code computes satisfy C30: alive whenever every registered subsystem was heard from less than timeout-tick ago, dead whenever one that reported has been silent for more than timeout+tick and until it reports again, ready only if something is registered, every registered subsystem reported ready and nothing is unregistered (re-registration counts as registered). Each generated transition of the 2-subsystem graphs is then executed on a real started Health and IsAlive()/IsReady() must equal the model's answers.",
     level_note="The walk first demands the exact answers of the code model (alternative 'exact'); only if the code departs from it is it compared with the alternative 'loose', in which IsAlive/IsReady may be anything the C30 statement allows (+-1 tick slack; readiness open while a subsystem is dead) - VIOLATION only if neither fits. Readings: an unreported subsystem must not be reported dead within timeout-tick of its registration; ready must be TRUE when all the listed conditions hold and every subsystem is punctual. Exhaustive only within the bound (2 subsystems, the listed timeouts, saturating silence counters); /alive and /ready HTTP/gRPC endpoints of route.go are not driven (they call the same Reporter methods); the barrier relies on Health.ticker re-evaluating tick.Chan() per loop iteration (otherwise the check reports cannot-decide, not a violation); clockwork's fake ticker is trusted.",
     assumptions=["clockwork.FakeClock/fake ticker is faithful", "bounded: 2 subsystems, timeouts from a small set, time on a 100/250 ms grid",
                  "a tick is processed by the ticker goroutine before the clock moves on (calls at the same instant may come before or after it)"],
-    stages=[dict(kind="walk", module="Health", pkg="internal/health", test="TestVerifC30Health", harness=["internal/health/c30_health_test.go"],
-                 alternatives=[dict(name="exact", cfg={"quick": "MC_Health_exact.cfg", "thorough": "MC_Health_exact_big.cfg"}),
-                               dict(name="loose", cfg={"quick": "MC_Health_loose.cfg", "thorough": "MC_Health_loose_big.cfg"})],
-                 budget={"quick": 40, "thorough": 240}),
-            dict(kind="tlc", name="HealthMC", module="Health", cfg={"quick": None, "thorough": "MC_Health_mc.cfg"}, workers=8)],
+    stages=[_walk("Health", "_g250", {"quick": 40, "thorough": 90}, quick=True, quick_suffix=""),   # 250 ms grid, a 750|1250 ms, b 1250 ms (thorough: both 750|1250 ms)
+            _walk("Health100a", "_g100a", 150),   # thorough only: 100 ms grid, a 600 ms, b 1200 ms
+            _walk("Health100b", "_g100b", 150),   # thorough only: 100 ms grid, a 300 ms (< tick), b 1700 ms
+            dict(kind="tlc", name="HealthMC", module="Health", cfg={"quick": None, "thorough": "MC_Health_mc.cfg"}, workers=8),
+            dict(kind="tlc", name="HealthMC3", module="Health", cfg={"quick": None, "thorough": "MC_Health_mc3.cfg"}, workers=8)],
 )
+
+# lib/stages.py has no "skip this walk stage in the quick tier" (a cfg of None is only understood by
+# tlc stages), so the thorough-only walk stages are dropped here when vcheck was not asked for thorough
+# (kept for --replay, which selects the stage by name and does not carry the tier).
+if not _THOROUGH and "--replay" not in _sys.argv:
+    PROP["stages"] = [st for st in PROP["stages"] if st["kind"] != "walk" or st.get("_quick")]
